@@ -115,10 +115,14 @@ def load_specs(spec_dir=None):
                 if m:
                     sect = ('section', m.group(1), None)
                     continue
-                m = re.match(r'(sub|sigsub) (\w+) "(.*)" => "(.*)"$', parts)
+                m = re.match(r'(sub|sigsub|resub) (\w+) "(.*)" => "(.*)"$', parts)
                 if m:
                     unesc = lambda t: t.replace('\\n', '\n').replace('\\"', '"')
-                    (cur.subs if m.group(1) == 'sub' else cur.sigsubs).append((m.group(2), unesc(m.group(3)), unesc(m.group(4))))
+                    if m.group(1) == 'resub':
+                        # idiom rule: a regular expression applied to EVERY occurrence (possibly none) - survives edits of the lines it touches
+                        cur.subs.append((m.group(2), re.compile(unesc(m.group(3))), unesc(m.group(4))))
+                    else:
+                        (cur.subs if m.group(1) == 'sub' else cur.sigsubs).append((m.group(2), unesc(m.group(3)), unesc(m.group(4))))
                     continue
                 raise GenError('%s:%d: bad section header %r' % (fn, ln, line))
             elif cur is not None and sect is None and re.match(r'[a-z-]+:', line):
